@@ -1,9 +1,13 @@
+pub mod conf;
 pub mod dnsconv;
 pub mod engine;
 pub mod ethip;
 pub mod hist;
 pub mod mutate;
 pub mod props_codec;
+pub mod props_conf;
+pub mod props_ra;
+pub mod rfc4861;
 pub mod props_crash;
 pub mod props_dnsfunc;
 pub mod rfc1035;
@@ -65,6 +69,16 @@ pub fn run_check(id: &str, tier: Tier) -> i32 {
             ctx.assume("frames shorter than 14 octets cannot be delivered to the LLDP service by the kernel; the LLDP target starts after the Ethernet header");
             props_crash::run_c05_func(&ctx);
         }
+        "C17" => {
+            ctx.rule("build: generated interface sections (every field absent/null/value; lifetimes {0,1,8,600,1800,9000,9001,65535,65536,4294967,4294968,2^31,2^32-1,2^32,random} written as integers, '<n>s', mixed units or digit strings; 0..6 prefixes of any length with and without host bits; RDNSS 0..8 incl. $self6; DNSSL domains of 1..8 labels; PREF64 lengths {32,40,48,56,64,96}; URLs 0..240 octets) plus top-level defaults, rendered to YAML, loaded through the real loader, built by the pure builder, serialised, and decoded by a decoder written from RFC 4861/8106/8781/8910; oracle: decoded == expected(config), reserved fields zero, unrepresentable values rejected or clamped; non-trivial = >= 3 option kinds in the message or an unrepresentable value");
+            ctx.assume("the mtu / lifetime tri-state resolution against interface and routing table lives in the impure wrapper and is decided by the wire tier; the hook takes the resolved values as parameters");
+            props_ra::run_c17_func(&ctx);
+        }
+        "C19" => {
+            ctx.rule("load-and-serve: (1) the manual's examples, the shipped example file (as is and uncommented) and a full-grammar document must load; (2) complete single-substitution family over them (every node replaced by each wrong type / empty collection / boundary number / hostile string, every key replaced or deleted); (3) generated double substitutions; (4) generated byte/token mutations of the texts; every document goes through the real loader, every accepted configuration is used to serve DHCP (DISCOVER/REQUEST on the first host of every configured prefix, with every configured hardware address, all options requested), to build and serialise an RA per interface, and to decide ACLs for IPv4/IPv6/mapped/unix clients; oracle: Ok or Err with text, no panic; non-trivial = rejected by a typed section parser or accepted and served");
+            ctx.assume("yaml-rust recursion depth: documents nesting deeper than 64 and documents using anchors/aliases are not executed (counted)");
+            props_conf::run_c19(&ctx);
+        }
         "C06" => {
             ctx.rule("cache-model: generated query sequences (keys with near misses: label/type/DO/CD/case; replies with 0..12 records, TTLs {0,1,2,59,600,2^31,2^32-1,random} over three sections, cached error kinds) x clock moves (fixed steps and placements at +-2 s around the entry's smallest TTL in 250 ms steps) x sweeps, driven through the cache's own functions in handle_query order under tokio's paused clock; oracle: reference cache model; non-trivial = near-miss lookup, hit within 1 s of expiry, or hit on a reply with >=2 distinct TTLs in >=2 sections");
             props_dnsfunc::run_c06_func(&ctx);
@@ -101,7 +115,9 @@ pub fn run_replay(path: &str) -> i32 {
     let case = &v["case"];
     let res = props_dhcp::replay(id, sub, case).or_else(|| props_codec::replay(id, sub, case))
         .or_else(|| props_dnsfunc::replay(id, sub, case))
-        .or_else(|| props_crash::replay(id, sub, case));
+        .or_else(|| props_crash::replay(id, sub, case))
+        .or_else(|| props_conf::replay(id, sub, case))
+        .or_else(|| props_ra::replay(id, sub, case));
     match res {
         None => {
             eprintln!("no replayer for {} / {}", id, sub);
